@@ -448,6 +448,8 @@ static void q_setup(void) {
     vs_watch(&q_spsc, sizeof q_spsc);
   } else {
     q_mpscr = mpscr_fifo_create((size_t)cfg_get("lanes", 1));
+    // lifetime position: the state of an empty queue after that many lane probes by trypop (the round-robin counter)
+    q_mpscr->counter += (size_t)cfg_get("counter_base", 0);
   }
 }
 static void q_push_val(int t, long v, void* reuse_node, int lane) {
